@@ -1418,4 +1418,53 @@ example : PlainDir chainFS ["w"] ∧ exChain.length ≤ loadFuel ∧ (∀ y ∈ 
     ChainFilesOK chainFS ["w"] [] exChain :=
   ⟨chainFS_plain, by decide, exChain_plain, exChain_ok⟩
 
+/-! ## a layer whose whole document is null -/
+
+/-- is the value a map, a list or null (a document the merge rules extend rather than replace) -/
+def c02_isContainerOrNull : Val → Bool
+  | .map _ => true
+  | .list _ => true
+  | .null => true
+  | _ => false
+
+theorem c02_merge_null_of_container {d : Val} (h : c02_isContainerOrNull d = true) : merge d .null = .ok d := by
+  cases d with
+  | map kvs => exact merge_map_null kvs
+  | list l => exact merge_list_null l
+  | null => exact merge_null .null
+  | _ => simp [c02_isContainerOrNull] at h
+
+/-- A layer whose whole document is null (JSON `null`, YAML `~`, an empty YAML file) and that has ancestors among the documents
+    CHANGES NO DOCUMENT (map-, list- and null-rooted targets; a scalar-rooted target is replaced, as by any other value), and it
+    is recorded with the selected documents as its parents - so the layers above it still inherit from the layers below it. -/
+theorem C02_null_layer_changes_nothing {st : PState} {patch : Doc} {targets : List String}
+    (hs : selectionOf st patch = .merge targets .null)
+    (hc : ∀ p ∈ st.docs, p.1 ∈ targets → c02_isContainerOrNull p.2 = true) :
+    mergeDocument st patch =
+      .ok { docs := st.docs, known := addParents (registered st patch).known patch.id targets } := by
+  rw [C02_selection_merge hs, mergeInto_ok_iff]
+  refine ⟨?_, rfl⟩
+  have hmap : st.docs.map (stepFun targets .null) = st.docs := by
+    conv => rhs; rw [← List.map_id st.docs]
+    apply List.map_congr_left
+    intro p hp
+    obtain ⟨i, d⟩ := p
+    simp only [stepFun, id]
+    by_cases ht : i ∈ targets
+    · rw [if_pos ht, c02_merge_null_of_container (hc (i, d) hp ht)]
+    · rw [if_neg ht]
+  have h := forall2_stepRel_of_ok (targets := targets) (body := .null) (l := (registered st patch).docs)
+    (fun p hp ht => ⟨p.2, c02_merge_null_of_container (hc p hp ht)⟩)
+  have hd : (registered st patch).docs = st.docs := rfl
+  rw [hd, hmap] at h
+  exact h
+
+/-- the hypotheses are met: a null document layered over a map-rooted one (over the scalar-rooted `C02_st` the second one fails,
+    and there the null layer does replace the document: `merge (.int 1) .null = .ok .null`) -/
+example : selectionOf C02_mst { id := "n", parents := ["a"], data := .null } = .merge ["a"] .null := by decide
+example : (mergeDocument C02_mst { id := "n", parents := ["a"], data := .null }).toOption.map (·.docs) = some C02_mst.docs := by
+  rw [C02_null_layer_changes_nothing (targets := ["a"]) (by decide) (by decide)]
+  rfl
+
+
 end Bkl
